@@ -732,13 +732,14 @@ type dsrc struct {
 	known   map[int]int64 // what only Fetch knows (not listed yet)
 	lag     map[int]int   // ingest status reported for a provider (0: healthy)
 	salt    int           // makes this source's head-advertisement CIDs its own
+	late    map[int]int64 // what a Fetch that is held open will answer for a provider once released: a time, or -1 for "not found" (the answer was taken when the call arrived)
 	gateAll chan struct{} // one-shot: the next FetchAll waits for it
 	gateOne chan struct{} // one-shot: the next Fetch waits for it
 	entered chan struct{}
 }
 
 func newDsrc() *dsrc {
-	return &dsrc{listed: map[int]int64{}, known: map[int]int64{}, lag: map[int]int{}, entered: make(chan struct{}, 16)}
+	return &dsrc{listed: map[int]int64{}, known: map[int]int64{}, lag: map[int]int{}, late: map[int]int64{}, entered: make(chan struct{}, 16)}
 }
 
 // dinfo allocates a fresh record on every call
@@ -792,6 +793,12 @@ func (s *dsrc) Fetch(ctx context.Context, pid peer.ID) (*model.ProviderInfo, err
 	s.mu.Lock()
 	defer s.mu.Unlock()
 	p := pcdrv.PeerIndex(pid)
+	if t, ok := s.late[p]; ok && g != nil {
+		if t < 0 {
+			return nil, nil
+		}
+		return dinfo(p, t, s.lag[p], s.salt), nil
+	}
 	if t, ok := s.listed[p]; ok {
 		return dinfo(p, t, s.lag[p], s.salt), nil
 	}
@@ -1187,6 +1194,83 @@ func directedHTTPListingShifts(name string) Directed {
 	return d
 }
 
+// (f) a lookup's answer that arrives late never overwrites what a refresh cached meanwhile:
+// Get(R) misses and its Fetch is held open (the answer — an OLDER record, or "not found" —
+// is already on its way); the source then reports R with a newer record and a Refresh is
+// requested; the held call is released.  Whatever order the two writers take, afterwards R
+// is cached with the newer record.
+func directedLateMissAnswer(name string, notFound bool) Directed {
+	d := Directed{Name: name}
+	src := newDsrc()
+	src.salt = 4
+	src.listed[dP] = 1
+	pc, err := pcache.New(pcache.WithSource(src), pcache.WithTTL(time.Hour), pcache.WithRefreshInterval(0))
+	if err != nil {
+		panic(err)
+	}
+	src.mu.Lock()
+	if notFound {
+		src.late[dR] = -1
+	} else {
+		src.late[dR] = 1
+	}
+	src.mu.Unlock()
+	g := src.gate(false)
+	missDone := make(chan *model.ProviderInfo, 1)
+	go func() {
+		pi, _ := pc.Get(context.Background(), pcdrv.Peer(dR))
+		missDone <- pi
+	}()
+	if !src.waitEntered(2 * time.Second) {
+		d.Failures = append(d.Failures, "setup: the miss never reached the source")
+	}
+	src.mu.Lock()
+	src.listed[dR] = 2 // the source now reports R, with a newer record
+	src.mu.Unlock()
+	refDone := make(chan error, 1)
+	go func() { refDone <- pc.Refresh(context.Background()) }()
+	// (the refresh either waits for the miss to give the write slot back, or runs now)
+	select {
+	case <-refDone:
+		refDone <- nil
+		d.Notes = append(d.Notes, "the refresh completed while the miss-fetch was still waiting for its source")
+	case <-time.After(60 * time.Millisecond):
+	}
+	close(g)
+	select {
+	case <-missDone:
+	case <-time.After(3 * time.Second):
+		d.Failures = append(d.Failures, "hung: the miss did not return")
+		return d
+	}
+	select {
+	case <-refDone:
+	case <-time.After(3 * time.Second):
+		d.Failures = append(d.Failures, "hung: the refresh did not return")
+		return d
+	}
+	pi, _ := pc.Get(context.Background(), pcdrv.Peer(dR))
+	switch {
+	case pi == nil:
+		d.Failures = append(d.Failures, "missing-after-refresh: a refresh in which the source reported provider R completed, yet Get(R) returns no record (the late answer of the miss-fetch replaced it by a negative entry)")
+	case timeOf(pi) != 2:
+		d.Failures = append(d.Failures, fmt.Sprintf("went-back: a refresh that fetched R with advertisement time 2 completed, yet Get(R) returns the record of time %d (the late answer of the miss-fetch overwrote it)", timeOf(pi)))
+	}
+	found := false
+	for _, x := range pc.List() {
+		if x.AddrInfo.ID == pcdrv.Peer(dR) {
+			found = true
+			if timeOf(x) != 2 {
+				d.Failures = append(d.Failures, fmt.Sprintf("went-back: List has R with advertisement time %d after a refresh that fetched time 2 completed", timeOf(x)))
+			}
+		}
+	}
+	if !found {
+		d.Failures = append(d.Failures, "missing-after-refresh: R is not listed after a refresh in which the source reported it completed")
+	}
+	return d
+}
+
 func runDirected(only string) []Directed {
 	var out []Directed
 	add := func(name string, f func() Directed) {
@@ -1224,6 +1308,8 @@ func runDirected(only string) []Directed {
 	add("records/status-change-with-unchanged-time", func() Directed {
 		return directedRecordNeverChanges("records/status-change-with-unchanged-time")
 	})
+	add("writers/late-miss-answer-older", func() Directed { return directedLateMissAnswer("writers/late-miss-answer-older", false) })
+	add("writers/late-miss-answer-not-found", func() Directed { return directedLateMissAnswer("writers/late-miss-answer-not-found", true) })
 	add("records/lagging-source", func() Directed { return directedLaggingSource("records/lagging-source", false) })
 	add("records/source-rolled-back", func() Directed { return directedLaggingSource("records/source-rolled-back", true) })
 	add("records/http-listing-shifts", func() Directed { return directedHTTPListingShifts("records/http-listing-shifts") })
